@@ -18,6 +18,7 @@ import Dtaiverif.Generated.PyBand
 import Dtaiverif.Model.Rolling
 import Dtaiverif.Model.Bounds
 import Dtaiverif.Model.Dtw
+import Dtaiverif.Model.Compact
 
 namespace Dtai
 open Gen.CBand
@@ -167,11 +168,64 @@ theorem Roll_band_eq_grid (g : Grid α) (hw : 1 ≤ g.window) (i : Nat) :
 
 end grid
 
+/-- **`dtw_wps_parts`** (the layout of the compact warping-paths matrix: effective window, row width, buffer
+length and the three row indices that separate the four regions A–D) is `wpsParts` of `Model/Compact.lean`,
+for all lengths and every window setting (0 = none) -/
+theorem CBand_wps_parts (l1 l2 w : Nat) :
+    let e := dtw_wps_parts { l1 := l1, l2 := l2, settings_window := w }
+    let p := wpsParts l1 l2 w
+    e.parts_window = p.window ∧ e.parts_ldiff = p.ldiff ∧ e.parts_ldiffr = p.ldiffr ∧ e.parts_ldiffc = p.ldiffc ∧
+    e.parts_width = p.width ∧ e.parts_overlap_left_ri = p.ol ∧ e.parts_overlap_right_ri = p.or ∧
+    e.parts_ri1 = p.ri1 ∧ e.parts_ri2 = p.ri2 ∧ e.parts_ri3 = p.ri3 ∧ e.parts_length = p.length := by
+  intro e p
+  have hw0 : ((w : Int) = 0) ↔ w = 0 := by omega
+  have hld : e.parts_ldiff = p.ldiff ∧ e.parts_ldiffr = p.ldiffr ∧ e.parts_ldiffc = p.ldiffc := by
+    simp only [e, p, dtw_wps_parts, wpsParts]
+    refine ⟨?_, ?_, ?_⟩ <;> (repeat' split) <;> omega
+  have hwin : e.parts_window = p.window := by
+    simp only [e, p, dtw_wps_parts, wpsParts, hw0]
+    by_cases h0 : w = 0
+    · simp only [h0, if_true, ↓reduceIte]; omega
+    · simp only [h0, if_false, ↓reduceIte]; omega
+  have hwidth : e.parts_width = p.width := by
+    simp only [e, p, dtw_wps_parts, wpsParts, hw0]
+    by_cases h0 : w = 0
+    · simp only [h0, if_true, ↓reduceIte]; omega
+    · simp only [h0, if_false, ↓reduceIte]
+      (repeat' split) <;> omega
+  have hol : e.parts_overlap_left_ri = p.ol := by
+    have he : e.parts_overlap_left_ri = min (e.parts_window + e.parts_ldiffr) ((l1 : Int) + 1) := rfl
+    have hp : p.ol = min (p.window + p.ldiffr) (l1 + 1) := rfl
+    rw [he, hp, hwin, hld.2.1]; omega
+  have hor : e.parts_overlap_right_ri = p.or := by
+    have he : e.parts_overlap_right_ri = if e.parts_window + e.parts_ldiffr ≤ (l1 : Int)
+        then max ((l1 : Int) + 1 - e.parts_window - e.parts_ldiffr) 0 else 0 := rfl
+    have hp : p.or = if p.window + p.ldiffr ≤ l1 then l1 + 1 - p.window - p.ldiffr else 0 := rfl
+    rw [he, hp, hwin, hld.2.1]
+    (repeat' split) <;> omega
+  have h1 : e.parts_ri1 = p.ri1 := by
+    have he : e.parts_ri1 = min (l1 : Int) (min e.parts_overlap_left_ri e.parts_overlap_right_ri) := rfl
+    have hp : p.ri1 = min l1 (min p.ol p.or) := rfl
+    rw [he, hp, hol, hor]; omega
+  have h2 : e.parts_ri2 = p.ri2 := by
+    have he : e.parts_ri2 = min (l1 : Int) e.parts_overlap_left_ri := rfl
+    have hp : p.ri2 = min l1 p.ol := rfl
+    rw [he, hp, hol]; omega
+  have h3 : e.parts_ri3 = p.ri3 := by
+    have he : e.parts_ri3 = min (l1 : Int) (max e.parts_overlap_left_ri e.parts_overlap_right_ri) := rfl
+    have hp : p.ri3 = min l1 (max p.ol p.or) := rfl
+    rw [he, hp, hol, hor]; omega
+  have hlen : e.parts_length = p.length := by
+    have he : e.parts_length = ((l1 : Int) + 1) * e.parts_width := rfl
+    have hp : p.length = (l1 + 1) * p.width := rfl
+    rw [he, hp, hwidth]; simp only [Int.natCast_mul, Int.natCast_add, Int.natCast_one]
+  exact ⟨hwin, hld.1, hld.2.1, hld.2.2, hwidth, hol, hor, h1, h2, h3, hlen⟩
+
 theorem CBand_functions_pinned :
     Gen.CBand.functions = ["lb_keogh_pre", "lb_keogh_row", "lb_keogh_euclidean_pre", "lb_keogh_euclidean_row",
       "dtw_distance_pre", "dtw_distance_row", "dtw_distance_ndim_pre", "dtw_distance_ndim_row",
       "dtw_distance_euclidean_pre", "dtw_distance_euclidean_row", "dtw_distance_ndim_euclidean_pre",
-      "dtw_distance_ndim_euclidean_row"] := by decide
+      "dtw_distance_ndim_euclidean_row", "dtw_wps_parts"] := by decide
 
 /- non-vacuity: a concrete run -/
 example : (cRun dtw_distance_pre dtw_distance_row 9 9 2 (fun _ => 0) 8).skip = 7 ∧
